@@ -121,8 +121,8 @@ static void* th_main(void* a) {
   for (int i = t->keep; i < t->nblocks; i++) { mi_free(t->out[i]); t->out[i] = NULL; }
   return NULL;
 }
-static const char* wl_names[] = { "small", "large", "huge", "aligned-huge", "threads8", "threads40", "heaps", "realloc", "mixed" };
-#define NWL 9
+static const char* wl_names[] = { "small", "large", "huge", "aligned-huge", "threads8", "threads40", "heaps", "realloc", "mixed", "timed" };
+#define NWL 10
 static int run_workload(int w) {
   switch (w) {
     case 0: /* small / medium churn over several pages */
@@ -183,6 +183,16 @@ static int run_workload(int w) {
         vf_blk_t nb = vf_live[vf_nlive - 1]; memmove(&vf_live[i + 1], &vf_live[i], (size_t)(vf_nlive - 1 - i) * sizeof(vf_blk_t)); vf_live[i] = nb;
       }
       return w_free_all();
+    case 9: { /* timed: frees spread over the purge delay with non-forced collects in between (two arenas when arenas are small) */
+      long d = mi_option_get(mi_option_purge_delay) * mi_option_get(mi_option_arena_purge_mult); if (d <= 0) d = 100;
+      if (w_alloc(40 * MiB, 0, 0) || w_alloc(40 * MiB, 0, 0)) return -1;
+      if (w_free_idx(0)) return -1;
+      vf_os.clock_ms += (d * 6) / 10;
+      if (w_free_idx(0)) return -1;
+      vf_os.clock_ms += d / 2;          /* the first block's delay has passed, the second one's has not */
+      mi_collect(false);                /* ordinary activity in between; the forced collect of the caller follows */
+      return 0;
+    }
     case 8: /* mixed */
       if (w_alloc(48, 0, 0) || w_alloc(8 * KiB, 0, 1) || w_alloc(1 * MiB, 0, 0) || w_alloc(17 * MiB, 0, 0) || w_alloc(64 * KiB, 4096, 0) || w_alloc(100 * KiB, 64 * MiB, 0)) return -1;
       if (w_free_idx(2)) return -1;
